@@ -11,7 +11,8 @@ worker iteration executes task_done() exactly once and then notifies under the
 condition variable, and no exception can leave the iteration (taint model of
 the task result); WAIT - wait() and the state inspection share one `with
 cond_var` block, every notify is under it; SENT - as many sentinels as
-workers, queue.join() first, worker leaves on the sentinel; LOCK - the
+workers, queue.join() first, worker leaves on the sentinel and acknowledges
+it (task_done) because the queue outlives the call; LOCK - the
 environment lock is re-entrant.
 Not decided: termination of Task.do, liveness under unfair OS scheduling.
 '''
